@@ -182,7 +182,17 @@ def st_segment(ops, base_dir, clock, files_model):
 
                     picked = [src.mazes[i % len(src)] for i in op[3]]
                     strip = op[4]
-                    mazes = [SolvedMaze(connection_list=z.connection_list.copy(), solution=z.solution.copy(), generation_meta=None if strip else copy.deepcopy(z.generation_meta)) for z in picked]
+                    if len(op) > 6 and op[6] == "reorder-shared":
+                        # the same maze OBJECTS in another order (sorted / shuffled by the user): arrays that are views of one
+                        # loaded block stay views of it
+                        r2 = random.Random(len(op[3]) * 7919 + len(src))
+                        picked = list(src.mazes)
+                        r2.shuffle(picked)
+                        mazes = picked
+                        strip = False
+                        bump("probe_handmade_reordered_shared_objects")
+                    else:
+                        mazes = [SolvedMaze(connection_list=z.connection_list.copy(), solution=z.solution.copy(), generation_meta=None if strip else copy.deepcopy(z.generation_meta)) for z in picked]
                     coll = copy.deepcopy(src.generation_metadata_collected) if op[5] else None
                     if coll is None and not strip and any(z.generation_meta is None for z in mazes) and not all(z.generation_meta is None for z in mazes):
                         continue  # partly stripped: collection is documented to raise
@@ -191,6 +201,17 @@ def st_segment(ops, base_dir, clock, files_model):
                     events.append(["hand", len(src), len(d), bool(strip), coll is not None, int(d.cfg.n_mazes)])
                     if int(d.cfg.n_mazes) != len(d):
                         bump("probe_handmade_count_differs_from_cfg")
+                elif name == "reload":
+                    # a dataset as it comes back from one of the formats (in memory), kept as a live dataset for later operations
+                    src = slots.get(op[1])
+                    if src is None or type(src).__name__ != "MazeDataset" or len(src) == 0:
+                        continue
+                    fn = {"full": "_serialize_full", "minimal": "_serialize_minimal", "soln_cat": "_serialize_minimal_soln_cat"}[op[3]]
+                    try:
+                        slots[op[2]] = MazeDataset.load(getattr(src, fn)())
+                        events.append(["reload", op[3], len(src)])
+                    except Exception as e:  # noqa: BLE001 - judged by the mem/save operations
+                        events.append(["reload-failed", op[3], type(e).__name__])
                 elif name == "mkcoll":
                     members = [slots[s] for s in op[2] if s in slots and type(slots[s]).__name__ == "MazeDataset"]
                     if not members:
@@ -382,6 +403,13 @@ def gen_history(rng: random.Random, tier: str) -> dict:
             src = rng.choice(slots)
             dst = "s%d" % len(slots)
             slots.append(dst)
+            if rng.random() < 0.35:
+                mid = "s%d" % len(slots)
+                slots.append(mid)
+                ops.append(["reload", src, mid, rng.choice(["minimal", "minimal", "soln_cat", "full"])])
+                ops.append(["hand", mid, dst + "h", [0] * rng.randint(1, 9), False, rng.random() < 0.5, "reorder-shared"])
+                slots.append(dst + "h")
+                ops.append(["mem", dst + "h", rng.choice(["minimal", "minimal", "serialize", "soln_cat", "full"])])
             ops.append(["hand", src, dst, [rng.randrange(12) for _ in range(rng.randint(1, 9))], rng.random() < 0.5, rng.random() < 0.5])
         elif r < 0.58:
             ops.append(["mem", rng.choice(slots), rng.choice(["serialize", "serialize", "full", "minimal", "soln_cat"])])
